@@ -23,6 +23,7 @@ var AssumedContracts = map[string]string{
 	"strconv.ParseUint(s,10,64)":                                           "succeeds iff s is 1..n ASCII digits and fits; result = dec_val(s); for len(s)<=8 dec_val(s) <= 99999999",
 	"strconv.Atoi / ParseInt(s,10,64)":                                     "succeeds iff s is an optional sign followed by digits and fits; result = signed value",
 	"strings.SplitN(s, sep, 2)":                                            "1 part iff sep does not occur, else 2 parts",
+	"context.Cause": "non-nil exactly when the context is done; otherwise an arbitrary error value",
 	"maps.Clone": "shallow copy: nil for nil, else a new map with equal keys and identical (shared) values",
 	"metadata.MD.Get/Join/Pairs/Copy/Append, From*Context, NewIncomingContext": "multimap operations on abstract metadata values; Append on a nil MD panics; FromOutgoingContext may return nil",
 	"proto.Marshal/Unmarshal":                                              "opaque; Marshal result is a fresh byte slice",
@@ -387,6 +388,14 @@ func (e *Exec) external(st *State, instr ssa.Instruction, name string, fn *ssa.F
 		st.assume(tEq(app(e.fun("ctx_value_val", []string{SInt, SInt}, SInt), c.T[1], kid), args[2].T[1]))
 		st.assume(tEq(app(e.fun("ctx_parent", []string{SInt}, SInt), c.T[1]), args[0].T[1]))
 		return ret(c)
+	case "context.Cause":
+		// non-nil iff the context is done; any error value (the cause need not be the context's Err())
+		ch := app(e.fun("ctx_done", []string{SInt}, SInt), args[0].T[1])
+		closed := e.chanClosed(st, ch, false, nil)
+		cv := e.freshVal("ctxcause", errorType())
+		st.assume(tEq(tEq(cv.T[0], "0"), tNot(closed)))
+		st.assume(tImp(tEq(cv.T[0], "0"), tEq(cv.T[1], "0")))
+		return ret(cv)
 	case "context.Background", "context.TODO":
 		return ret(Val{T: []string{e.declare(sym("ctxtag:bg"), SInt), e.declare(sym("ctxval:bg"), SInt)}})
 	case "grpc.NewContextWithServerTransportStream":
